@@ -945,6 +945,9 @@ def json_key(x):
 
 def replay_case(obj):
     """./check Cnn --replay: re-run a recorded engine trace on the real engine and print what happens."""
+    if (obj.get('replay', obj) or {}).get('kind') == 'engine-explore':
+        from harness import engine_explore
+        return engine_explore.replay(obj)
     import logging
     logging.disable(logging.CRITICAL)
     from harness import engine_driver as ed
